@@ -44,7 +44,7 @@ def adddelta_jobs(tier):
 PROPERTY = {
     "id": "C04",
     "suites": [
-        dict(_c11.PROPERTY["suites"][0], name="adddelta", jobs=adddelta_jobs),
+        dict(next(x for x in _c11.PROPERTY["suites"] if x["name"] == "encryption"), name="adddelta", jobs=adddelta_jobs),
         {"name": "block", "pkg": "internal/core/block", "files": ["zz_verif_block.go"], "common": ["intrinsics", "kvmodel"],
          "jobs": block_jobs, "overrides": OVR, "unwind": 30},
         dict(_c02.SUITE, name="frontier", jobs=frontier_jobs),
